@@ -283,3 +283,27 @@ class PyCheck:
 
     def ensures_no_content_no_violation(context, result):
         return implies(context.file_content is None, len(result) == 0)
+
+
+# ------------------------------------------------------------------------------------------ rules with an inline language guard
+LZ = "src/linters/lazy_ignores/linter.py::"
+
+
+LazyRuleT = Rec("LazyIgnoresRule", cls=LZ + "LazyIgnoresRule")
+
+
+@contract(LZ + "LazyIgnoresRule.check_content", props=["C15"], types=dict(self=LazyRuleT, code=Str, file_path=Str),
+          returns=SeqOf(ViolationT),
+          assumed="the analysis itself (directive scanning and header matching): C04/C12 territory; here only the interface")
+class LazyCheckContent:
+    def ensures(result):
+        return True
+
+
+@contract(LZ + "LazyIgnoresRule.check", props=["C15"], types=dict(self=LazyRuleT, context=CtxT), returns=SeqOf(ViolationT))
+class LazyCheck:
+    def ensures_python_only(context, result):
+        return implies(context.language != "python", len(result) == 0)
+
+    def ensures_no_content_no_violation(context, result):
+        return implies(context.file_content is None, len(result) == 0)
